@@ -279,6 +279,16 @@ var HTTPStatus = map[int][]int{
 	9: {400}, 10: {409}, 11: {400}, 12: {501}, 13: {500}, 14: {503}, 15: {500}, 16: {401},
 }
 
+// WSCloseCode is larking's documented mapping of gRPC codes to WebSocket close codes (the
+// exported WSStatusCode; there is no external standard for it, the table IS the contract the
+// property calls "the mapped close code"): timeouts and conflicts "going away" (1001), invalid
+// argument / unimplemented "unsupported data" (1003), unauthenticated "policy violation" (1008),
+// everything else - and every out-of-range code - "internal error" (1011).
+var WSCloseCode = map[int]int{
+	1: 1001, 2: 1011, 3: 1003, 4: 1001, 5: 1011, 6: 1001, 7: 1011, 8: 1011,
+	9: 1011, 10: 1011, 11: 1011, 12: 1003, 13: 1011, 14: 1011, 15: 1011, 16: 1008,
+}
+
 // TwirpName is the Twirp error code name for a gRPC code (Twirp spec, "Error codes").
 var TwirpName = map[int]string{
 	1: "canceled", 2: "unknown", 3: "invalid_argument", 4: "deadline_exceeded", 5: "not_found",
